@@ -148,6 +148,10 @@ type runCase struct {
 	N0     int
 	SamePk bool
 	Skip   []string // target field names the structural oracle must not judge (map/ignore settings)
+	Pre    *Val     // update methods: pre-state of the target struct
+	ZeroFlags [3]bool // update:ignoreZeroValueField basic / struct / nillable in effect (harness' reading)
+	Update string   // verdict of the update oracle ("" = holds)
+	NonIdent string // memory shared between positions of non-identical types
 	// observed
 	Panic   string
 	Out     string // Coq term of the result
@@ -158,7 +162,7 @@ type runCase struct {
 }
 
 const driverPrelude = `
-type pr struct{ src map[uintptr]bool; next int; snap bool }
+type pr struct{ src map[uintptr]bool; next int; snap bool; styp map[uintptr]reflect.Type; nonident []string }
 
 func tok(v reflect.Value) int64 {
 	switch v.Kind() {
@@ -181,20 +185,23 @@ func tok(v reflect.Value) int64 {
 	return 0 // non-basic map keys: paths use 0
 }
 
+var srcTypes = map[uintptr]reflect.Type{}
+
 func collect(v reflect.Value, set map[uintptr]bool) {
 	switch v.Kind() {
 	case reflect.Ptr:
-		if !v.IsNil() { if v.Type().Elem().Size() > 0 { set[v.Pointer()] = true }; collect(v.Elem(), set) }
+		if !v.IsNil() { if v.Type().Elem().Size() > 0 { set[v.Pointer()] = true; srcTypes[v.Pointer()] = v.Type() }; collect(v.Elem(), set) }
 	case reflect.Slice:
 		if !v.IsNil() && v.Len() > 0 && v.Type().Elem().Size() > 0 {
 			set[v.Pointer()] = true
+			srcTypes[v.Pointer()] = v.Type()
 			for i := 0; i < v.Len(); i++ { set[v.Index(i).Addr().Pointer()] = true } // interior pointers (&s[i])
 		}
 		for i := 0; i < v.Len(); i++ { collect(v.Index(i), set) }
 	case reflect.Array:
 		for i := 0; i < v.Len(); i++ { collect(v.Index(i), set) }
 	case reflect.Map:
-		if !v.IsNil() { set[v.Pointer()] = true
+		if !v.IsNil() { set[v.Pointer()] = true; srcTypes[v.Pointer()] = v.Type()
 			it := v.MapRange()
 			for it.Next() { collect(it.Key(), set); collect(it.Value(), set) } }
 	case reflect.Struct:
@@ -212,6 +219,9 @@ func (p *pr) show(v reflect.Value, n0 int, path []string, shared *[]string, unde
 	id := func(a uintptr) int {
 		if p.src[a] {
 			if !under && shared != nil { *shared = append(*shared, "[" + strings.Join(path, "; ") + "]") }
+			if st, ok := srcTypes[a]; ok && shared != nil && st != v.Type() {
+				p.nonident = append(p.nonident, fmt.Sprintf("%s shared as %s", st, v.Type()))
+			}
 			return 2
 		}
 		if p.snap { return 0 }
@@ -327,6 +337,7 @@ func sc(s, d reflect.Value, path string, skip map[string]bool) string {
 func report(w *bufio.Writer, id int, n0 int, srcp, resp interface{}, before string, skip map[string]bool) {
 	src, res := reflect.ValueOf(srcp).Elem(), reflect.ValueOf(resp).Elem()
 	set := map[uintptr]bool{}
+	srcTypes = map[uintptr]reflect.Type{}
 	collect(src, set)
 	p := &pr{src: set}
 	var shared []string
@@ -334,7 +345,64 @@ func report(w *bufio.Writer, id int, n0 int, srcp, resp interface{}, before stri
 	after := (&pr{src: map[uintptr]bool{}, snap: true}).show(src, 0, nil, nil, true)
 	changed := 0
 	if after != before { changed = 1 }
-	fmt.Fprintf(w, "R\t%d\tOK\t%s\t[%s]\t%d\t%s\n", id, out, strings.Join(shared, "; "), changed, sc(src, res, "", skip))
+	fmt.Fprintf(w, "R\t%d\tOK\t%s\t[%s]\t%d\t%s\t\t%s\n", id, out, strings.Join(shared, "; "), changed, sc(src, res, "", skip), strings.Join(p.nonident, "; "))
+}
+
+// per-field snapshots of a struct (update methods)
+func snapshotFields(p interface{}) []string {
+	v := reflect.ValueOf(p).Elem()
+	var out []string
+	for i := 0; i < v.NumField(); i++ {
+		out = append(out, (&pr{src: map[uintptr]bool{}, snap: true}).show(v.Field(i), 0, nil, nil, true))
+	}
+	return out
+}
+
+// reportUpdate: result line plus the direct C10 oracle: fields without a same-named source field keep their
+// previous value; a zero source field of a selected category leaves the target field unchanged; a nil source
+// pointer leaves everything unchanged; a non-zero source field is replaced by its conversion.
+func reportUpdate(w *bufio.Writer, id int, n0 int, srcp, resp interface{}, before string, pre []string, zf [3]bool, skip map[string]bool) {
+	src, res := reflect.ValueOf(srcp).Elem(), reflect.ValueOf(resp).Elem()
+	out := (&pr{src: map[uintptr]bool{}}).show(res, n0, nil, nil, true)
+	after := (&pr{src: map[uintptr]bool{}, snap: true}).show(src, 0, nil, nil, true)
+	changed := 0
+	if after != before { changed = 1 }
+	post := snapshotFields(resp)
+	verdict := ""
+	s := src
+	nilSrc := false
+	if s.Kind() == reflect.Ptr {
+		if s.IsNil() { nilSrc = true } else { s = s.Elem() }
+	}
+	for i := 0; i < res.NumField() && verdict == ""; i++ {
+		name := res.Type().Field(i).Name
+		if skip[name] || (skip["<unexported>"] && res.Type().Field(i).PkgPath != "") { continue }
+		if nilSrc {
+			if post[i] != pre[i] { verdict = "nil source pointer but field " + name + " changed" }
+			continue
+		}
+		f, ok := s.Type().FieldByName(name)
+		if !ok || len(f.Index) != 1 {
+			if post[i] != pre[i] { verdict = "field " + name + " has no source but changed" }
+			continue
+		}
+		sf := s.Field(f.Index[0])
+		cat := -1
+		switch sf.Kind() {
+		case reflect.Struct: cat = 1
+		case reflect.Ptr, reflect.Slice, reflect.Map, reflect.Chan, reflect.Func, reflect.Interface: cat = 2
+		case reflect.Array: cat = -1
+		default: cat = 0
+		}
+		if cat >= 0 && zf[cat] && sf.IsZero() {
+			if post[i] != pre[i] { verdict = fmt.Sprintf("zero-valued source field %s (category %d selected) but the target field changed from %s to %s", name, cat, pre[i], post[i]) }
+			continue
+		}
+		if !sf.IsZero() && !(sf.Kind() == reflect.Struct && (zf[0] || zf[1] || zf[2])) { // nested structs are updated field-wise under the flags
+			if m := sc(sf, res.Field(i), "."+name, skip); m != "" { verdict = "non-zero source field not converted: " + m }
+		}
+	}
+	fmt.Fprintf(w, "R\t%d\tOK\t%s\t[]\t%d\t\t%s\n", id, out, changed, verdict)
 }
 
 func snapshot(srcp interface{}) string {
@@ -349,6 +417,9 @@ func writeDriver(root string, p *Program, cases []*runCase, race bool) {
 	for _, rc := range cases {
 		b := &goBuilder{p: p, done: map[int]string{}}
 		expr := b.expr(rc.Src)
+		if rc.Pre != nil {
+			b.expr(rc.Pre) // declare the helper variables of the pre-state up front (memoised by id)
+		}
 		fmt.Fprintf(&body, "func case_%d(w *bufio.Writer) {\n\tdefer func() {\n\t\tif r := recover(); r != nil {\n\t\t\tfmt.Fprintf(w, \"R\\t%d\\tPANIC\\t%%q\\n\", fmt.Sprint(r))\n\t\t}\n\t}()\n", rc.ID, rc.ID)
 		for _, d := range b.decls {
 			body.WriteString("\t" + d + "\n")
@@ -357,6 +428,21 @@ func writeDriver(root string, p *Program, cases []*runCase, race bool) {
 		pkg := "generated"
 		if rc.SamePk {
 			pkg = "p"
+		}
+		if rc.Pre != nil {
+			pexpr := b.expr(rc.Pre)
+			for _, d := range b.decls[len(b.decls)-0:] {
+				_ = d
+			}
+			fmt.Fprintf(&body, "\tvar res %s = %s\n\tpre := snapshotFields(&res)\n", p.goType(rc.Pre.T, 0), pexpr)
+			fmt.Fprintf(&body, "\t(&%s.%sImpl{}).%s(src, &res)\n", pkg, rc.Conv, rc.Method)
+			var sk []string
+			for _, n := range rc.Skip {
+				sk = append(sk, fmt.Sprintf("%q: true", n))
+			}
+			fmt.Fprintf(&body, "\treportUpdate(w, %d, %d, &src, &res, before, pre, [3]bool{%v, %v, %v}, map[string]bool{%s})\n}\n\n", rc.ID, rc.N0, rc.ZeroFlags[0], rc.ZeroFlags[1], rc.ZeroFlags[2], strings.Join(sk, ", "))
+			calls = append(calls, fmt.Sprintf("\tcase_%d(w)", rc.ID))
+			continue
 		}
 		fmt.Fprintf(&body, "\tres := (&%s.%sImpl{}).%s(src)\n", pkg, rc.Conv, rc.Method)
 		var sk []string
@@ -437,6 +523,12 @@ func buildAndRun(root string, cases []*runCase, race bool) (string, error) {
 		c.Changed = parts[5] == "1"
 		if len(parts) > 6 {
 			c.Struct = parts[6]
+		}
+		if len(parts) > 7 {
+			c.Update = parts[7]
+		}
+		if len(parts) > 8 {
+			c.NonIdent = parts[8]
 		}
 	}
 	return "", nil
